@@ -94,8 +94,7 @@ def r19_1(ctx):
         f, pre, lp, post = encoder_parts(ctx, cls)
         con0 = construct(f, "encoder")
         members = list(ctx.repo.enums[enum])
-        if not ctx.thorough:
-            members = [m for m in members if m not in ("WORKING_ADDITIONALLY", "REMOVED")]
+        # (every member the enum declares: a log may hold members the simulator itself never writes -- a hand-made or imported log)
         # prologue
         outs = run_cell(ctx, f, pre, {"finish_margin": Poly.sym("m")})
         ctx.require(len(outs) == 1, f"{cls} encoder prologue forks")
